@@ -168,6 +168,15 @@ var vC18Programs = []struct {
 	{`(def lib (package "lib" (def Limit 5) (def Sub (package "sub" (def Limit 6) (defn Get [] Limit))))) (set lib.Sub.Limit 9001) (lib.Sub.Get)`, 1},
 	{`(def lib (package "lib" (def Limit 9001) (defn Get [] Limit) (def Sub (package "sub" (def Limit 6))))) (set lib.Sub.Limit 7) (lib.Get)`, 1},
 	{`(def Level 9001) (def lib (package "lib" (def Level 5))) (set lib.Level 6) (+ 0 Level)`, 1},
+	// a granted path may go on through hashes nested inside a public hash member: reads and writes reach the hash the path names
+	{`(def p (package "pk" (def H (hash a: (hash b: 5 c: 6) b: 7)))) (set p.H.a.b 9001) (+ 0 p.H.a.b)`, 1},
+	{`(def p (package "pk" (def H (hash a: (hash b: 5 c: 6) b: 9001)))) (set p.H.a.b 6) (+ 0 p.H.b)`, 1},
+	{`(def p (package "pk" (def H (hash a: (hash b: 5))) (defn Get [] (hget (hget H a:) b:)))) (set p.H.a.b 9001) (p.Get)`, 1},
+	{`(def o (package "out" (def In (package "inn" (def Opt (hash a: (hash b: (hash c: 5)))))))) (set o.In.Opt.a.b.c 9001) (+ 0 o.In.Opt.a.b.c)`, 1},
+	{`(def o (package "out" (def In (package "inn" (def Opt (hash a: (hash b: 5) b: 9001)))))) {o.In.Opt.a.b = 6} (+ 0 o.In.Opt.b)`, 1},
+	{`(def p (package "pk" (def h (hash a: (hash b: 5))))) (set p.h.a.b 9001)`, -1},
+	{`(def g (hash a: (hash b: (hash c: 5) c: 9001))) (set g.a.b.c 6) (+ 0 g.a.c)`, 1},
+	{`(def g (hash a: (hash b: (hash c: 5)))) (set g.a.b.c 9001) (+ 0 g.a.b.c)`, 1},
 }
 
 func vh_C18_programs() {
